@@ -35,6 +35,9 @@ func init() {
 
 func runC05(w *World, r *Report) {
 	hrParsedURLAfterInit(w, r, "R5")
+	hrFlowDataComplete(w, r, "R5")
+	hrFirstElementOnlyWhenPresent(w, r, "R5")
+	hrLabelMapNeverNil(w, r, "R5")
 	hrEdgeEqualNilGuards(w, r, "R5")
 	hrListAssertionsGuarded(w, r, "R5")
 	hrAPIStreamAccessors(w, r, "R5")
